@@ -803,6 +803,17 @@ class Mailbox:
                     "mbox: '%s', mailbox deleted exiting management task",
                     self.name,
                 )
+                # No one is going to let the waiting commands run anymore.
+                # Release them; they will find the mailbox `deleted`.
+                #
+                self.deleted = True
+                if imap_cmd is not None and not imap_cmd.ready.is_set():
+                    imap_cmd.ready.set()
+                try:
+                    while True:
+                        self.task_queue.get_nowait().ready.set()
+                except asyncio.QueueEmpty:
+                    pass
                 return
             except RuntimeError as e:
                 if "Event loop is closed" in str(e):
@@ -3155,6 +3166,23 @@ class Mailbox:
         # Inbox is handled specially.
         #
         if mbox.name.lower() != "inbox":
+            # Check what can be checked before anything is changed: a failure
+            # half way through a rename leaves the folder, the db and the
+            # active mailboxes disagreeing with each other.
+            #
+            if new_name.startswith(mbox.name + "/"):
+                raise InvalidMailbox(
+                    f"Can not rename '{old_name}' to a mailbox beneath "
+                    f"itself: '{new_name}'"
+                )
+
+            # The superior mailboxes of the new name have to exist (the
+            # server SHOULD create them, rfc3501 section 6.3.5)
+            #
+            parent_name = os.path.dirname(new_name)
+            if parent_name and not server.folder_exists(parent_name):
+                await Mailbox.create(parent_name, server)
+
             await _helper_rename_folder(mbox, new_name)
         else:
             await _helper_rename_inbox(mbox, new_name)
